@@ -97,6 +97,19 @@ fn positions() -> Vec<Pos> {
         Pos { name: "key extra value", ty: Ty::Key, template: m(vec![(Item::int(1), Item::int(2)), (Item::int(-1), ph())]), interpreting: false },
         Pos { name: "claims extra value", ty: Ty::Claims, template: m(vec![(Item::int(8), ph()), (Item::text("t"), Item::Array(vec![ph()]))]), interpreting: false },
     ];
+    // uninterpreted values under every registered-but-untyped label, private labels and text labels
+    for l in [0i64, 8, 9, 10, 32, 33, 34, 35, 256, 257, -1, -65537] {
+        out.push(Pos { name: "header extra under a registered / private label", ty: Ty::Header, template: m(vec![(Item::int(l), ph())]), interpreting: false });
+    }
+    for l in [0i64, 8, 9, 38, 39, 40, -257, -258, -259, -260, -65537, -70000] {
+        out.push(Pos { name: "claims extra under a registered / private claim key", ty: Ty::Claims, template: m(vec![(Item::int(1), Item::text("i")), (Item::int(l), ph())]), interpreting: false });
+    }
+    for l in [0i64, 6, 7, -1, -2, -3, -4, -5, -12, -70000] {
+        out.push(Pos { name: "key extra under a key-type-specific / unknown label", ty: Ty::Key, template: m(vec![(Item::int(1), Item::int(2)), (Item::int(l), ph())]), interpreting: false });
+    }
+    out.push(Pos { name: "header extra under a text label", ty: Ty::Header, template: m(vec![(Item::text("x"), ph())]), interpreting: false });
+    out.push(Pos { name: "claims extra under a text key", ty: Ty::Claims, template: m(vec![(Item::text("x"), ph())]), interpreting: false });
+    out.push(Pos { name: "extra inside a counter signature's unprotected header", ty: Ty::Header, template: m(vec![(Item::int(7), Item::Array(vec![Item::Bytes(vec![]), m(vec![(Item::int(10), ph())]), Item::Bytes(vec![])]))]), interpreting: false });
     for r in [Reg::CoapContentFormat, Reg::HeaderParameter, Reg::KeyType, Reg::KeyOperation] {
         out.push(Pos { name: "RegisteredLabel", ty: Ty::RegLabel(r), template: ph(), interpreting: true });
     }
@@ -225,7 +238,7 @@ impl Check for C15 {
         }
     }
     fn rule(&self) -> String {
-        "integers n from a boundary lattice (0, +-1, 23/24, 2^8, 2^16, 2^32, 2^63, 2^64 boundaries +-2; every power of two +-1 of both signs; registered identifiers shifted by 2^8, 2^16, 2^32, 2^63, 2^64 and sign-flipped: the aliases a truncating or wrapping conversion would create) plus log-uniform samples over [-2^64, 2^64-1], each planted at 33 positions (bare and registry label types, header/key/claims labels, alg in header (also inside a protected bstr), key and KDF context, kty, content type, crit and key_ops elements, party nonces, exp/nbf/iat, key data length, and uninterpreted extra values incl. nested) in every encoding (all head widths >= minimal, bignum with 0-3 leading zeros). Oracle: the reference model's verdict for that position (exact value, or out-of-range error when n is the only fault, or another stated reason such as unregistered), extras preserved exactly, accepted values re-encode to an integer that reads back as n. Non-trivial = distinct (position, n).".into()
+        "integers n from a boundary lattice (0, +-1, 23/24, 2^8, 2^16, 2^32, 2^63, 2^64 boundaries +-2; every power of two +-1 of both signs; registered identifiers shifted by 2^8, 2^16, 2^32, 2^63, 2^64 and sign-flipped: the aliases a truncating or wrapping conversion would create) plus log-uniform samples over [-2^64, 2^64-1], each planted at 70 positions (bare and registry label types, header/key/claims labels, alg in header (also inside a protected bstr), key and KDF context, kty, content type, crit and key_ops elements, party nonces, exp/nbf/iat, key data length, and uninterpreted extra values incl. nested) in every encoding (all head widths >= minimal, bignum with 0-3 leading zeros). Oracle: the reference model's verdict for that position (exact value, or out-of-range error when n is the only fault, or another stated reason such as unregistered), extras preserved exactly, accepted values re-encode to an integer that reads back as n. Non-trivial = distinct (position, n).".into()
     }
     fn assumptions(&self) -> Vec<String> {
         super::std_assumptions()
